@@ -72,6 +72,15 @@ func (c *Codec) level() int {
 
 type reader struct{ *gzip.Reader }
 
+// WriteTo hides (*gzip.Reader).WriteTo, which only works on a reader that has
+// not been read from yet: after a Read it fails with "gzip: invalid checksum".
+// io.Copy picks WriteTo whenever the source has one, so a caller that reads a
+// few bytes and then copies the rest would get that error. Copying through
+// Read is always correct.
+func (r *reader) WriteTo(w io.Writer) (int64, error) {
+	return io.Copy(w, struct{ io.Reader }{r.Reader})
+}
+
 func (r *reader) Close() (err error) {
 	if z := r.Reader; z != nil {
 		r.Reader = nil
